@@ -140,9 +140,22 @@ class FnTranslator:
         if isinstance(n, ast.Compare):
             if len(n.ops) != 1:
                 raise self.err(n, "chained comparison")
+            op = n.ops[0]
+            # comparisons with the infinities are predicates (they have no meaning as real numbers)
+            if isinstance(op, ast.Eq):
+                for x, y in ((n.left, n.comparators[0]), (n.comparators[0], n.left)):
+                    if isinstance(y, ast.Name) and y.id == "inf":
+                        t, k = self.expr(x)
+                        if k == "bool":
+                            raise self.err(n, "bool == inf")
+                        return f"(isposinf {t})", "bool"
+                    if isinstance(y, ast.UnaryOp) and isinstance(y.op, ast.USub) and isinstance(y.operand, ast.Name) and y.operand.id == "inf":
+                        t, k = self.expr(x)
+                        if k == "bool":
+                            raise self.err(n, "bool == -inf")
+                        return f"(isneginf {t})", "bool"
             a, ka = self.expr(n.left)
             b, kb = self.expr(n.comparators[0])
-            op = n.ops[0]
             if ka == "bool" and kb == "bool":
                 if isinstance(op, ast.Eq):
                     return f"(Bool.eqb {a} {b})", "bool"
@@ -356,12 +369,38 @@ Set Implicit Arguments.
 """
 
 
+def class_bases(cls: ast.ClassDef) -> list[str]:
+    return [b.id for b in cls.bases if isinstance(b, ast.Name)]
+
+
+def enum_block(tyname: str, prefix: str, names: list[str], method: str, fn: str, arity: int, display=lambda n: n) -> str:
+    """An enumeration of the translated classes with its dispatch function and display names."""
+    if not names:
+        return ""
+    args = " ".join("ab"[i] for i in range(arity)) if arity == 2 else "x"
+    out = [f"Inductive {tyname} : Set := " + " | ".join(f"{prefix}{n}" for n in names) + ".\n"]
+    out.append(f"Definition {fn} {{T : Type}} {{N : Num T}} (n : {tyname}) ({args} : T) : T :=\n  match n with\n")
+    for n in names:
+        out.append(f"  | {prefix}{n} => {n}_{method} {args}\n")
+    out.append("  end.\n")
+    out.append(f"Definition {tyname}_name (n : {tyname}) : string :=\n  match n with\n")
+    for n in names:
+        out.append(f'  | {prefix}{n} => "{display(n)}"\n')
+    out.append("  end.\n")
+    out.append(f"Definition all_{tyname}s : list {tyname} := [" + "; ".join(f"{prefix}{n}" for n in names) + "].\n\n")
+    return "".join(out)
+
+
+STRING_HEADER = "Require Import Coq.Strings.String Coq.Lists.List.\nImport ListNotations.\nOpen Scope string_scope.\n\n"
+
+
 def translate_simple(path: str, method: str, skip: set[str], base_names: set[str]) -> tuple[str, list[str], list[TranslationError]]:
     """norm.py / hedge.py: classes with a parameterless kernel `method(self, a, b)` / `(self, x)`."""
     src = open(path).read()
     tree = ast.parse(src)
     out = [HEADER.format(src=os.path.relpath(path, REPO), sha=hashlib.sha256(src.encode()).hexdigest()[:16])]
     names: list[str] = []
+    bases: dict[str, list[str]] = {}
     errors: list[TranslationError] = []
     for cls in [n for n in tree.body if isinstance(n, ast.ClassDef)]:
         if cls.name in skip or cls.name in base_names:
@@ -379,8 +418,15 @@ def translate_simple(path: str, method: str, skip: set[str], base_names: set[str
             plist = " ".join(f"v_{p}" for p in params)
             out.append(f"Definition {cls.name}_{method} {{T : Type}} {{N : Num T}} ({plist} : T) : T :=\n    {body}.\n\n")
             names.append(cls.name)
+            bases[cls.name] = class_bases(cls)
         except TranslationError as e:
             errors.append(e)
+    out.append(STRING_HEADER)
+    if method == "compute":
+        out.append(enum_block("tnorm", "T_", [n for n in names if "TNorm" in bases[n]], method, "tnorm_compute", 2))
+        out.append(enum_block("snorm", "S_", [n for n in names if "SNorm" in bases[n]], method, "snorm_compute", 2))
+    else:
+        out.append(enum_block("hedge", "H_", names, method, "hedge_apply", 1, display=lambda n: n.lower()))
     return "".join(out), names, errors
 
 
@@ -466,9 +512,57 @@ def translate_terms(path: str) -> tuple[str, dict, list[TranslationError]]:
             emit(n)
         except TranslationError as e:
             errors.append(e)
+    # the sum type of shape terms with its dispatchers
+    out.append(STRING_HEADER)
+    shapes = [n for n, e in info.items() if e["membership"]]
+    out.append("Inductive shape (T : Type) : Type :=\n")
+    for n in shapes:
+        ps = " ".join(pname(p) for p in info[n]["params"])
+        out.append(f"  | Sh_{n} ({ps} : T)\n")
+    out.append(".\n")
+    for n in shapes:
+        out.append(f"Arguments Sh_{n} {{T}}.\n")
+
+    def pats(n):
+        return " ".join(pname(p) for p in info[n]["params"])
+
+    out.append("Definition shape_membership {T : Type} {N : Num T} (s : shape T) (x : T) : T :=\n  match s with\n")
+    for n in shapes:
+        out.append(f"  | Sh_{n} {pats(n)} => {n}_membership {pats(n)} x\n")
+    out.append("  end.\n")
+    out.append("(* None: the class inherits Term.tsukamoto, which raises *)\nDefinition shape_tsukamoto {T : Type} {N : Num T} (s : shape T) : option (T -> T) :=\n  match s with\n")
+    for n in shapes:
+        if info[n]["tsukamoto"]:
+            out.append(f"  | Sh_{n} {pats(n)} => Some ({n}_tsukamoto {pats(n)})\n")
+        else:
+            out.append(f"  | Sh_{n} {pats(n)} => None\n")
+    out.append("  end.\n")
+    out.append("Definition shape_monotonic {T : Type} (s : shape T) : bool :=\n  match s with\n")
+    for n in shapes:
+        out.append(f"  | Sh_{n} {pats(n)} => {str(info[n]['monotonic']).lower()}\n")
+    out.append("  end.\n")
+    out.append("Definition shape_class {T : Type} (s : shape T) : string :=\n  match s with\n")
+    for n in shapes:
+        out.append(f'  | Sh_{n} {pats(n)} => "{n}"\n')
+    out.append("  end.\n")
+    out.append("(* constructor parameters in __init__ order (after the name) *)\nDefinition shape_args {T : Type} (s : shape T) : list T :=\n  match s with\n")
+    for n in shapes:
+        out.append(f"  | Sh_{n} {pats(n)} => [{'; '.join(pname(p) for p in info[n]['params'])}]\n")
+    out.append("  end.\n")
+    out.append("Definition shape_height {T : Type} {N : Num T} (s : shape T) : T :=\n  match s with\n")
+    for n in shapes:
+        out.append(f"  | Sh_{n} {pats(n)} => {'p_height' if 'height' in info[n]['params'] else 'lit 1 0'}\n")
+    out.append("  end.\n")
+    out.append("(* build a shape from its class name and the __init__-order parameter list *)\nDefinition shape_make {T : Type} (cls : string) (ps : list T) : option (shape T) :=\n")
+    first = True
+    for n in shapes:
+        k = len(info[n]["params"])
+        vs = [f"a{i}" for i in range(k)]
+        out.append(f'  {"" if first else "else "}if String.eqb cls "{n}" then match ps with [{"; ".join(vs)}] => Some (Sh_{n} {" ".join(vs)}) | _ => None end\n')
+        first = False
+    out.append("  else None.\n\n")
     # tables
     out.append("(* term table: name, number of shape parameters expected by configure, parses a height, declares monotonic, has a tsukamoto override *)\n")
-    out.append("Require Import Coq.Strings.String Coq.Lists.List.\nImport ListNotations.\nOpen Scope string_scope.\n")
     rows = []
     for name, e in info.items():
         rows.append(
